@@ -187,6 +187,10 @@ def sig_blob(k, hash_type, variant, z_fn):
         der = b"\x30" + bytes([seqlen & 0xff]) + body
     if variant == "trail":
         der += b"\x00"
+    if variant in ("pad520", "pad521"):
+        # zero bytes after S (ignored by the lax parser) up to an element of exactly 520 / 521 bytes incl. the hash type:
+        # a signature that still verifies on either side of the stack-element size limit
+        der += b"\x00" * (int(variant[3:]) - 1 - len(der))
     if variant == "notseq":
         der = b"\x31" + der[1:]
     if variant == "nohashtype":
